@@ -1,5 +1,5 @@
 CONSTANTS Years <- QuickYears Step = 43200
 SPECIFICATION Spec
-INVARIANTS TypeOK Defn Inverse OrdInverse NoPhantom Ends TimeOK FracArith
+INVARIANTS TypeOK Defn Inverse OrdInverse NoPhantom Ends TimeOK FracArith Displays
 PROPERTY Monotone
 CHECK_DEADLOCK FALSE
